@@ -296,7 +296,7 @@ def ui_legal(kind, a, b, c, f, g, p, s):
 
 
 _KIND = shard("kind", "maxlen")
-PLEN = shard("plen", None)                                 # uid_rq is split by the length of the primary field
+PLEN = shard("slen", None)                                 # uid_rq is split by the length of the secondary field
 USES_U = _KIND in ("impl_uid", "role", "ext", "cext")     # parameters a kind does not use are pinned
 USES_A = _KIND == "impl_ver"
 USES_N = _KIND == "cext"
@@ -306,7 +306,7 @@ USES_S = ("uid_rq",)
 
 @harness(
     "C01", timeout=(120, 900),
-    shards=[{"kind": k} for k in UI_KINDS if k != "uid_rq"] + [{"kind": "uid_rq", "plen": n} for n in range(NB + 1)],
+    shards=[{"kind": k} for k in UI_KINDS if k != "uid_rq"] + [{"kind": "uid_rq", "slen": n} for n in range(NB + 1)],
     functions=["pdu_items:<each user-information sub-item>.encode/decode/from_primitive/to_primitive/item_length",
                "pdu_primitives:<each user-information primitive>.from_primitive", "utils:set_uid/set_ae/decode_bytes"],
     bounds="one sub-item of each of the nine kinds; numbers any value of their field width; byte fields 0..%d symbolic bytes; "
@@ -324,8 +324,8 @@ def ui_subitem(a: int, b: int, c: int, f: bool, g: bool, p: bytes, s: bytes, ule
     pre: USES_U or ulen == ULENS[0]
     pre: USES_A or alen == ALENS[0]
     pre: USES_N or nrel == 0
-    pre: PLEN is None or len(p) == PLEN
-    pre: not kf.skip("C01-zero-length-field", p=p, s=s)
+    pre: PLEN is None or len(s) == PLEN
+    pre: not kf.skip("C01-zero-length-field", p=p)
     post: _ == True
     """
     kind = shard("kind", "maxlen")
@@ -506,7 +506,16 @@ def _assoc_pre_ok(kinds, k0, k1, a, b, c, f, g, p, s):
 
 
 def _assoc_shards():
-    return [{"pdu": w, "k0": k} for w in ("RQ", "AC") for k in range(len(RQ_KINDS) + 1)]
+    out = []
+    for w in ("RQ", "AC"):
+        for k in range(len(RQ_KINDS) + 1):
+            # shards that can contain the user-identity request (two byte fields, five types) are split by len(s)
+            heavy = w == "RQ" and (RQ_KINDS[k:k + 1] == ["uid_rq"] or RQ_KINDS[(k + 1) % len(RQ_KINDS)] == "uid_rq" or not PAIRED) and k < len(RQ_KINDS)
+            if heavy:
+                out += [{"pdu": w, "k0": k, "slen": n} for n in range(NB_PDU + 1)]
+            else:
+                out.append({"pdu": w, "k0": k})
+    return out
 
 
 _W = shard("pdu", "RQ")
@@ -531,7 +540,7 @@ LI_OK = list(range(len(ALENS))) if PAIRED else ALENS
                                                             "one pairing per shard; all pairings in assoc_header" if PAIRED else "independent"),
     stubs=["strings are the fixed legal string of the enumerated length"],
     outside="more than two user-information sub-items / %d presentation contexts per PDU; longer byte fields (item harnesses)" % N_PC,
-    findings=["C01-zero-length-field"],
+    findings=["C01-zero-length-field-pdu"],
 )
 def assoc_pdu(li: int, ulen: int, npc: int, nts: int, k1: int, cid0: int, cid1: int, res: int, pv: int,
               a: int, b: int, c: int, f: bool, g: bool, p: bytes, s: bytes) -> bool:
@@ -544,7 +553,8 @@ def assoc_pdu(li: int, ulen: int, npc: int, nts: int, k1: int, cid0: int, cid1: 
     pre: _W == "RQ" or nts == 1
     pre: 0 <= a <= 65535 and 0 <= b <= 65535 and 0 <= c <= 65535
     pre: len(p) <= NB_PDU and len(s) <= NB_PDU
-    pre: not kf.skip("C01-zero-length-field", p=p, s=s)
+    pre: PLEN is None or len(s) == PLEN
+    pre: not kf.skip("C01-zero-length-field-pdu", p=p, k1=k1)
     post: _ == True
     """
     which = _W
